@@ -40,9 +40,7 @@ func conversionCollectionToList(ety cty.Type, conv conversion) conversion {
 				}
 			}
 
-			if val.IsNull() {
-				val = cty.NullVal(val.Type().WithoutOptionalAttributesDeep())
-			}
+			val = stripOptionalFromNull(val)
 
 			elems = append(elems, val)
 
@@ -94,9 +92,7 @@ func conversionCollectionToSet(ety cty.Type, conv conversion) conversion {
 				}
 			}
 
-			if val.IsNull() {
-				val = cty.NullVal(val.Type().WithoutOptionalAttributesDeep())
-			}
+			val = stripOptionalFromNull(val)
 
 			elems = append(elems, val)
 
@@ -253,9 +249,7 @@ func conversionTupleToSet(tupleType cty.Type, setEty cty.Type, unsafe bool) conv
 				}
 			}
 
-			if val.IsNull() {
-				val = cty.NullVal(val.Type().WithoutOptionalAttributesDeep())
-			}
+			val = stripOptionalFromNull(val)
 
 			elems = append(elems, val)
 
@@ -539,9 +533,7 @@ func conversionMapToObject(mapType cty.Type, objType cty.Type, unsafe bool) conv
 				return cty.NilVal, path.NewErrorf("map element type is incompatible with attribute %q: %s", name.AsString(), MismatchMessage(val.Type(), objType.AttributeType(name.AsString())))
 			}
 
-			if val.IsNull() {
-				val = cty.NullVal(val.Type().WithoutOptionalAttributesDeep())
-			}
+			val = stripOptionalFromNull(val)
 
 			elems[name.AsString()] = val
 		}
@@ -626,4 +618,15 @@ func conversionUnifyListElements(elems []cty.Value, path cty.Path, unsafe bool) 
 	}
 
 	return ret, nil
+}
+
+// stripOptionalFromNull returns the given value unchanged unless it is null,
+// in which case it returns a null of the same type without any
+// optional-attribute annotations, preserving the marks of the given value.
+func stripOptionalFromNull(val cty.Value) cty.Value {
+	if !val.IsNull() {
+		return val
+	}
+	unmarked, marks := val.Unmark()
+	return cty.NullVal(unmarked.Type().WithoutOptionalAttributesDeep()).WithMarks(marks)
 }
